@@ -54,6 +54,114 @@ def judge(jinja2, c, s, real):
     return oracle_lossless(real[1], L.normalize_src(s, c.keep))[0]
 
 
+IGNORED = {"comment_begin", "comment", "comment_end", "whitespace", "linecomment_begin", "linecomment_end", "linecomment",
+           "raw_begin", "raw_end"}
+_sbx = {}
+
+
+def other_views(jinja2, c, env, s, toks):
+    """the same positions through the other consumers of the token stream: lex() on str subclasses and on a
+    sandboxed environment, and the parser's TokenStream (Environment._tokenize, what extensions filter)"""
+    from markupsafe import Markup
+    from jinja2.sandbox import SandboxedEnvironment
+    for label, src in (("str subclass", L._S(s)), ("Markup", Markup(s))):
+        try:
+            got = [(ln, str(ty), v) for ln, ty, v in env.lex(src)]
+        except Exception as e:
+            got = "X:" + type(e).__name__
+        if got != toks:
+            return "Environment.lex(%s source) differs: %r" % (label, got)
+    sb = _sbx.get(c.key())
+    if sb is None:
+        sb = _sbx[c.key()] = SandboxedEnvironment(**c.kwargs())
+    try:
+        got = [(ln, str(ty), v) for ln, ty, v in sb.lex(s)]
+    except Exception as e:
+        got = "X:" + type(e).__name__
+    if got != toks:
+        return "SandboxedEnvironment.lex differs: %r" % (got,)
+    want = [ln for ln, ty, v in toks if ty not in IGNORED]
+    got = []
+    try:
+        for tok in env._tokenize(s, None):
+            got.append(tok.lineno)
+    except jinja2.TemplateSyntaxError:
+        want = want[:len(got)]          # wrap() rejected a token (identifier / string escape): compare what it yielded
+    if got != want:
+        return "line numbers of the parser's TokenStream %r differ from those of the raw tokens %r" % (got, want)
+    return None
+
+
+def run_babel(ctx, jinja2):
+    """message extraction relies on the positions: babel_extract must report every message on the line on which
+    its call / trans tag starts (line breaks in all three forms, whitespace control, raw blocks, multi-line
+    tags and comments in between) and attach the translator comment standing in front of it on that line"""
+    import io
+    import re
+    from jinja2.ext import babel_extract
+    nlre = re.compile(r"\r\n|\r|\n")
+    for j in range(ctx.size(1500, 15000)):
+        name = ctx.rng.choice(["default", "default", "angle", "asp"])
+        trim, lstrip, keep = (ctx.rng.random() < 0.5 for _ in range(3))
+        bs, be, vs, ve, cs, ce, _, _ = L.DELIMS[name]
+        nl = ctx.rng.choice(["\n", "\n", "\r\n", "\r"])
+        lines, expect = [], []
+        for i in range(ctx.rng.randint(1, 7)):
+            k = ctx.rng.random()
+            ind = ctx.rng.choice(["", "  ", "\t"])
+            if k < 0.4:
+                m = "m%d" % len(expect)
+                lm, rm = ctx.rng.choice(["", "-"]), ctx.rng.choice(["", "-"])
+                com = ctx.rng.random() < 0.6
+                pre = (cs + lm + " NOTE: c" + m + " " + ce) if com else ""
+                form = ctx.rng.randint(0, 2)
+                if form == 0:
+                    call, func = vs + lm + " _('" + m + "') " + rm + ve, "_"
+                elif form == 1:
+                    call, func = vs + ' gettext("' + m + '",' + nl + '  ) ' + rm + ve, "gettext"     # call spans two lines
+                else:
+                    call, func = bs + lm + " trans " + rm + be + m + bs + " endtrans " + be, "gettext"
+                lines.append(ind + pre + call + ctx.rng.choice(["", " x"]))
+                expect.append((m, func, ["c" + m] if com else []))
+            elif k < 0.55:
+                lines.append(ind + bs + ctx.rng.choice(["", "-"]) + " if true " + ctx.rng.choice(["", "-", "+"]) + be + "t" + bs + " endif " + be)
+            elif k < 0.7:
+                lines.append(bs + " raw " + be + nl + " " + vs + " _('no') " + ve + nl + bs + " endraw " + ctx.rng.choice(["", "-"]) + be)
+            elif k < 0.8:
+                lines.append(cs + " multi" + nl + " line " + ce)
+            elif k < 0.9:
+                lines.append(vs + " [1," + nl + nl + "  2]|length " + ve)
+            else:
+                lines.append(ctx.rng.choice(["text", "", "  a b", "}}"]))
+        src = nl.join(lines) + ctx.rng.choice(["", nl])
+        want = []
+        for m, func, com in expect:
+            needle = {"_": "_('" + m + "')", "gettext": None}[func] if func == "_" else None
+            off = src.find("_('" + m + "')") if func == "_" else -1
+            if off < 0:
+                off = src.find('gettext("' + m + '"')
+            if off < 0:
+                off = src.find(" trans ")
+                # the trans tag of THIS message: search the tag that is followed by the message
+                off = src.find(m + bs + " endtrans") if off >= 0 else -1
+                off = src.rfind(bs, 0, off) if off >= 0 else -1
+            want.append((1 + len(nlre.findall(src[:off])), func, m, com))
+        options = {"block_start_string": bs, "block_end_string": be, "variable_start_string": vs, "variable_end_string": ve,
+                   "comment_start_string": cs, "comment_end_string": ce, "trim_blocks": str(trim).lower(),
+                   "lstrip_blocks": str(lstrip).lower(), "keep_trailing_newline": str(keep).lower()}
+        case = {"kind": "babel", "src": src, "options": options, "want": [list(w) for w in want]}
+        ctx.case(sample=case if j < 2 else None, key=("babel", src))
+        ctx.count("babel_extract")
+        try:
+            got = [(ln, f, msg, list(cm)) for ln, f, msg, cm in babel_extract(io.BytesIO(src.encode("utf-8")), ("_", "gettext"), ("NOTE:",), options)]
+        except Exception as e:
+            got = "X:" + type(e).__name__ + ":" + str(e)[:80]
+        if got != want:
+            ctx.reject(case, "babel_extract reports %r, the calls stand at %r" % (got, want), "C39:babel:%r:%s%s%s" % (src, trim, lstrip, keep))
+        else:
+            ctx.validated()
+
+
 def configs():
     out = []
     for name in L.DELIMS:
@@ -101,7 +209,9 @@ def run(ctx):
             for t in itertools.product(alpha, repeat=Lk + 1):
                 cases.append((c, "".join(t)))
     nrand = ctx.size(500, 5000)
-    for c in cfgs:
+    # random longer sources: additionally keep_trailing_newline for every delimiter set
+    rand_cfgs = cfgs + [L.Cfg(name, ctx.rng.random() < 0.5, ctx.rng.random() < 0.5, keep=True) for name in L.DELIMS]
+    for c in rand_cfgs:
         for i in range(nrand):
             cases.append((c, L.gen_source(ctx.rng, c, unicode_text=(i % 4 == 0))))
     runs = L.model_runs(ctx, cases)
@@ -126,6 +236,12 @@ def run(ctx):
             if api != r[1]:
                 ctx.reject(case, "Environment.lex differs from Lexer.tokeniter: %r" % (api,), "C39:lex-api:%r:%s" % (s, c.key()))
                 continue
+        if r[0] == "OK" and len(types) > 1 and ctx.rng.random() < 0.08:
+            w = other_views(jinja2, c, env, s, r[1])
+            ctx.count("other_views")
+            if w:
+                ctx.reject(case, w, "C39:views:%r:%s" % (s, c.key()))
+                continue
         if m.canon() != r:
             if L.outside_alphabet(m):
                 ctx.count("outside_ascii_tag_alphabet")
@@ -142,6 +258,7 @@ def run(ctx):
             if gaps:
                 ctx.count("with_gaps")
         ctx.validated()
+    run_babel(ctx, jinja2)
 
 
 def replay(ctx, data):
@@ -150,6 +267,14 @@ def replay(ctx, data):
     if data.get("kind") != "failing-input" or case is None:
         print("replay: this file names a broken theorem/correspondence, not an input:", data.get("broken"))
         return run(ctx)
+    if case.get("kind") == "babel":
+        import io
+        from jinja2.ext import babel_extract
+        got = [[ln, f, msg, list(cm)] for ln, f, msg, cm in babel_extract(io.BytesIO(case["src"].encode("utf-8")), ("_", "gettext"), ("NOTE:",), case["options"])]
+        print("source:", repr(case["src"]), "\nbabel_extract:", got, "\nexpected     :", case["want"])
+        if got != case["want"]:
+            ctx.reject(case, "babel_extract reports %r, the calls stand at %r" % (got, case["want"]), data.get("signature"))
+        return
     c = L.Cfg.from_desc(case["cfg"])
     s = case["src"]
     r = L.real_run(jinja2, L.env_for(jinja2, c), s)
